@@ -292,6 +292,7 @@ class Engine:
         self.ghost_at = {}
         self.attr_hooks = {}
         self.filters = {}
+        self.truth_hooks = {}
         self.stmt_ghosts = False
         self.format_hooks = {}
         self.heap = {}            # global ghost state (object heaps) visible to code hooks and to every spec
@@ -518,6 +519,9 @@ class Engine:
                 return t.n(v.e) > 0
             if isinstance(t, TTuple):
                 return len(t.ts) > 0
+            h = self.truth_hooks.get(t.name)
+            if h is not None:
+                return h(self, v)          # truthiness of an abstract object (e.g. a graph: non-empty), given by the contract
             raise EngineError('truth of %s' % t)
         if isinstance(v, Box):
             return self.truth(SV(v.ty, v.e))
@@ -1292,6 +1296,17 @@ class Engine:
     def refine_none(self, test, tv, env):
         """after `x is None` / `x is not None` has been decided on this path, an Opt-typed x that is known not to be None
         is re-bound to its payload (same python value, sharper static type)."""
+        if isinstance(test, ast.Compare) and len(test.ops) == 1 and isinstance(test.left, ast.Attribute) \
+                and isinstance(test.left.value, ast.Name) and isinstance(test.comparators[0], ast.Constant) \
+                and test.comparators[0].value is None:
+            # `obj.attr is not None`: the same refinement on the attribute slot of an interpreter object
+            is_none = tv if isinstance(test.ops[0], ast.Is) else (not tv if isinstance(test.ops[0], ast.IsNot) else None)
+            base = env.lookup(test.left.value.id) if env.has(test.left.value.id) else None
+            if is_none is False and isinstance(base, Obj):
+                v = base.attrs.get(test.left.attr)
+                if isinstance(v, SV) and isinstance(v.ty, TOpt):
+                    base.attrs[test.left.attr] = wrap(v.ty.t, v.ty.get(v.e))
+            return
         if isinstance(test, ast.Compare) and len(test.ops) == 1 and isinstance(test.left, ast.Name) \
                 and isinstance(test.comparators[0], ast.Constant) and test.comparators[0].value is None:
             is_none = tv if isinstance(test.ops[0], ast.Is) else (not tv if isinstance(test.ops[0], ast.IsNot) else None)
